@@ -62,8 +62,11 @@ def gen_case(ctx, k, P):
     xs = rand_ivec(rng, n, -3, 3)
     vecs = [[Fraction(0)] * n, x1, x2, b1, b2, [a * u + c * v for u, v in zip(x1, x2)], [a * u + c * v for u, v in zip(b1, b2)],
             xs, cc.matvec(t, xs, n)]
+    # 9, 10 = 2^-70 (x1, b1): the same cycle on data of tiny magnitude (a power of two: every operation scales exactly)
+    tiny = Fraction(1, 2 ** 70)
+    vecs += [[tiny * u for u in x1], [tiny * u for u in b1]]
     ks = rng.choice([1, 2, 3, 4])
-    base = [("C", 1, 3), ("C", 2, 4), ("C", 5, 6), ("C", 7, 8), ("S", 0, 3, ks), ("CC", 0, 3, ks), ("S", 1, 3, 30)]
+    base = [("C", 1, 3), ("C", 2, 4), ("C", 5, 6), ("C", 7, 8), ("C", 9, 10), ("S", 0, 3, ks), ("CC", 0, 3, ks), ("S", 1, 3, 30)]
     extra = [("C", 1, 3), ("C", 5, 6), ("C", 0, 4), ("S", 0, 3, ks), ("C", 7, 8), ("S", 2, 6, 2), ("S", 1, 3, 30), ("S", 1, 3, 30)]
     if cls.startswith("par") and cc.is_symmetric(t) and all(t[(i, i)] > 0 for i in range(n)):
         extra += [("K", 0, 3), ("K", 0, 3)]
@@ -153,6 +156,16 @@ def judge(ctx, c, res, model_lines):
             if not ok:
                 ctx.signal("O", sig0 + ":linearity", "cycle(a x1 + c x2, a b1 + c b2) != a cycle(x1,b1) + c cycle(x2,b2): " + why2, case=c["line"])
             nontrivial = cc.vmax(y3) > 0
+            # homogeneity at a tiny scale: cycle(s x1, s b1) = s cycle(x1, b1) for s = 2^-70 (no branch may depend on magnitudes)
+            if ("C", 9, 10) in groups and len(c["vecs"]) > 10:
+                yt = val(("C", 9, 10))
+                if cc.finite(yt):
+                    up = [float(v) * 2.0 ** 70 for v in yt]
+                    ok, why2 = cc.vec_close(up, y1, 1e-9, max(cc.vmax(y1), 1e-300))
+                    if not ok:
+                        ctx.signal("O", sig0 + ":linearity:tiny_scale", "cycle(s x1, s b1) != s cycle(x1, b1) for s = 2^-70: " + why2, case=c["line"])
+                else:
+                    ctx.signal("O", sig0 + ":nonfinite", "cycle returned a non-finite value on data of magnitude 2^-70", case=c["line"])
         else:
             ctx.signal("O", sig0 + ":nonfinite", "cycle returned a non-finite value on a hierarchy of the domain", case=c["line"])
         # --- O: consistency (the exact solution is a fixed point)
